@@ -186,7 +186,7 @@ func steps(p probe, wire []byte) []srvh.Step {
 type facRef struct {
 	mu       sync.Mutex
 	have     bool
-	off      time.Duration
+	lo, hi   time.Duration
 	fromCls  string
 	cdModel  int
 	cdImpl   int
@@ -336,20 +336,26 @@ func runGroup(w *worker, g group, record bool) bool {
 				violate("not-closed-by-delay", "impl-oracle",
 					fmt.Sprintf("%d closes before WrapConn returned (the caller closes at once on error: no bridge-specific delay) | %s", res.Closes, desc), g, d.i, w)
 			} else if res.CloseByTimeout {
-				off := res.CloseOff
-				if off < 30*time.Second-srvh.Tolerance || off >= 90*time.Second {
+				// the close deadline relative to the real accept time lies in [lo, hi]
+				lo, hi := res.CloseOff-res.Slack-srvh.Tolerance, res.CloseOff+srvh.Tolerance
+				if hi < 30*time.Second || lo >= 90*time.Second {
 					violate("close-time-out-of-range", "impl-oracle",
-						fmt.Sprintf("closed when the deadline +%.3fs fired, not in [30 s, 90 s) | %s", off.Seconds(), desc), g, d.i, w)
+						fmt.Sprintf("closed when the deadline +%.3fs fired, not in [30 s, 90 s) | %s", res.CloseOff.Seconds(), desc), g, d.i, w)
 				}
-				fr.mu.Lock()
 				if !fr.have {
-					fr.have, fr.off, fr.fromCls = true, off, p.Class
-				} else if dd := off - fr.off; dd < -srvh.Tolerance || dd > srvh.Tolerance {
+					fr.have, fr.lo, fr.hi, fr.fromCls = true, lo, hi, p.Class
+				} else if hi < fr.lo || lo > fr.hi {
 					violate("close-time-depends-on-input", "impl-oracle",
-						fmt.Sprintf("close deadline +%.3fs for class %s but +%.3fs for class %s on the same bridge | %s",
-							off.Seconds(), p.Class, fr.off.Seconds(), fr.fromCls, desc), g, d.i, w)
+						fmt.Sprintf("close deadline +%.3fs for class %s but +%.3fs..+%.3fs for class %s on the same bridge | %s",
+							res.CloseOff.Seconds(), p.Class, fr.lo.Seconds(), fr.hi.Seconds(), fr.fromCls, desc), g, d.i, w)
+				} else {
+					if lo > fr.lo {
+						fr.lo = lo
+					}
+					if hi < fr.hi {
+						fr.hi = hi
+					}
 				}
-				fr.mu.Unlock()
 			} else if !scriptHasEOF(d.st) && !g.Sleeper {
 				violate("closed-early", "impl-oracle", "closed although neither a deadline fired nor the peer disconnected | "+desc, g, d.i, w)
 			}
